@@ -3,6 +3,8 @@ import NflowsModel.Lemmas.Knots
 import NflowsModel.Lemmas.Glue
 import NflowsModel.Lemmas.SplineAssembly
 import NflowsModel.Lemmas.SplineExec
+import NflowsModel.Lemmas.RQBin
+import NflowsModel.Lemmas.RQWhole
 /-!
 # C09 — spline transformers are increasing bijections of their box, identity in the tails
 
@@ -30,46 +32,46 @@ theorem knots_valid {K : ℕ} (u : Fin K → ℝ) (m left right : ℝ) (hK : 0 <
 theorem exec_knots_valid (e : Float → ℝ) (m lo hi : Float) (u : List ℝ) (hu : u ≠ [])
     (hm0 : 0 ≤ e m) (hc : e (1 - m * u.length.toFloat) = 1 - e m * u.length) (hmK : e m * u.length ≤ 1)
     (hlt : e lo < e hi) (hd : e (hi - lo) = e hi - e lo) :
-    let kn := (rqKnots (realX e) lo hi (flooredSoftmax (realX e) m u)).1
+    let kn := (rqKnots (NF.realX e) lo hi (flooredSoftmax (NF.realX e) m u)).1
     kn.length = u.length + 1 ∧ kn.head? = some (e lo) ∧ kn.getLast? = some (e hi) ∧ kn.Pairwise (· < ·) := by
   have hv := SplineExec.flooredSoftmax_valid e m u hu hm0 hc hmK
-  have hne : flooredSoftmax (realX e) m u ≠ [] := by
+  have hne : flooredSoftmax (NF.realX e) m u ≠ [] := by
     intro h
     have := hv.2; rw [h] at this; simp at this
-  have hlen : (flooredSoftmax (realX e) m u).length = u.length := by
+  have hlen : (flooredSoftmax (NF.realX e) m u).length = u.length := by
     simp [SplineExec.flooredSoftmax_eq, SplineExec.softmaxG_length]
-  have := SplineExec.rqKnots_valid e lo hi (flooredSoftmax (realX e) m u) hne hv.1 hv.2 hlt hd
+  have := SplineExec.rqKnots_valid e lo hi (flooredSoftmax (NF.realX e) m u) hne hv.1 hv.2 hlt hd
   simpa [hlen] using this
 
 /-- **Linear spline cdf knots, on the executable code**: `pdf = softmax(u)`, `cdf = 0 :: setLast (cumsum pdf) 1` — for
     every non-empty unnormalised vector the executed knots start at 0, end at 1 and strictly increase (so every bin has
     positive mass and the piecewise-linear cdf is strictly increasing). -/
 theorem exec_linear_cdf_valid (e : Float → ℝ) (u : List ℝ) (hu : u ≠ []) :
-    let kn := (0 : ℝ) :: setLast (cumsumG (realX e) (softmaxG (realX e) u)) 1
+    let kn := (0 : ℝ) :: setLast (cumsumG (NF.realX e) (softmaxG (NF.realX e) u)) 1
     kn.length = u.length + 1 ∧ kn.head? = some 0 ∧ kn.getLast? = some 1 ∧ kn.Pairwise (· < ·) := by
-  have hne : softmaxG (realX e) u ≠ [] := by
+  have hne : softmaxG (NF.realX e) u ≠ [] := by
     intro h; have := SplineExec.softmaxG_length e u; rw [h] at this
     exact hu (List.length_eq_zero_iff.mp this.symm)
-  have := SplineExec.unitKnots_valid e (softmaxG (realX e) u) hne (SplineExec.softmaxG_pos e u) (SplineExec.softmaxG_sum e u hu)
+  have := SplineExec.unitKnots_valid e (softmaxG (NF.realX e) u) hne (SplineExec.softmaxG_pos e u) (SplineExec.softmaxG_sum e u hu)
   simpa [SplineExec.softmaxG_length] using this
 
 /-- **Quadratic / cubic spline location knots, on the executable code**: `widths = flooredSoftmax`, `locs = 0 :: setLast
     (cumsum widths) 1` are valid for every unnormalised vector when `0 ≤ m`, `m·K ≤ 1`. -/
 theorem exec_unit_locs_valid (e : Float → ℝ) (m : Float) (u : List ℝ) (hu : u ≠ [])
     (hm0 : 0 ≤ e m) (hc : e (1 - m * u.length.toFloat) = 1 - e m * u.length) (hmK : e m * u.length ≤ 1) :
-    let kn := (0 : ℝ) :: setLast (cumsumG (realX e) (flooredSoftmax (realX e) m u)) 1
+    let kn := (0 : ℝ) :: setLast (cumsumG (NF.realX e) (flooredSoftmax (NF.realX e) m u)) 1
     kn.length = u.length + 1 ∧ kn.head? = some 0 ∧ kn.getLast? = some 1 ∧ kn.Pairwise (· < ·) := by
   have hv := SplineExec.flooredSoftmax_valid e m u hu hm0 hc hmK
-  have hne : flooredSoftmax (realX e) m u ≠ [] := by
+  have hne : flooredSoftmax (NF.realX e) m u ≠ [] := by
     intro h; have := hv.2; rw [h] at this; simp at this
-  have hlen : (flooredSoftmax (realX e) m u).length = u.length := by
+  have hlen : (flooredSoftmax (NF.realX e) m u).length = u.length := by
     simp [SplineExec.flooredSoftmax_eq, SplineExec.softmaxG_length]
-  have := SplineExec.unitKnots_valid e (flooredSoftmax (realX e) m u) hne hv.1 hv.2
+  have := SplineExec.unitKnots_valid e (flooredSoftmax (NF.realX e) m u) hne hv.1 hv.2
   simpa [hlen] using this
 
 /-- executed softmax: positive entries summing to one, for every non-empty input -/
 theorem exec_softmax_valid (e : Float → ℝ) (u : List ℝ) (hu : u ≠ []) :
-    (∀ y ∈ softmaxG (realX e) u, 0 < y) ∧ (softmaxG (realX e) u).sum = 1 :=
+    (∀ y ∈ softmaxG (NF.realX e) u, 0 < y) ∧ (softmaxG (NF.realX e) u).sum = 1 :=
   ⟨SplineExec.softmaxG_pos e u, SplineExec.softmaxG_sum e u hu⟩
 
 /-- **Bin search**: `sum(x ≥ knots) - 1` with the last knot moved up by any `eps > 0` returns, for
@@ -82,28 +84,14 @@ theorem binSearch_spec (xs : ℕ → ℝ) (K : ℕ) (eps x : ℝ) (hK : 0 < K) (
 
 /-- **RQ bin, as executed**: the `Expr` term the driver evaluates is strictly increasing on its bin. -/
 theorem rq_executed_strictMonoOn {xk w yk h d0 d1 : ℝ} (hw : 0 < w) (hh : 0 < h) (h0 : 0 < d0) (h1 : 0 < d1) :
-    StrictMonoOn (fun x => evalR (Bridge.rqEnv x xk w yk h d0 d1) rqFwdE) (Set.Icc xk (xk + w)) := by
-  intro a ha b hb hab
-  simp only [Bridge.rqFwdE_eq]
-  have hs : 0 < h / w := div_pos hh hw
-  have hm := RQ.g_strictMonoOn (s := h / w) (h := h) hs h0 h1 hh
-  have ha' : (a - xk) / w ∈ Set.Icc (0:ℝ) 1 :=
-    ⟨div_nonneg (by linarith [ha.1]) hw.le, by rw [div_le_one hw]; linarith [ha.2]⟩
-  have hb' : (b - xk) / w ∈ Set.Icc (0:ℝ) 1 :=
-    ⟨div_nonneg (by linarith [hb.1]) hw.le, by rw [div_le_one hw]; linarith [hb.2]⟩
-  have : (a - xk) / w < (b - xk) / w := by
-    apply div_lt_div_of_pos_right _ hw; linarith
-  linarith [hm ha' hb' this]
+    StrictMonoOn (fun x => evalR (Bridge.rqEnv x xk w yk h d0 d1) rqFwdE) (Set.Icc xk (xk + w)) :=
+  RQBin.rq_executed_strictMonoOn hw hh h0 h1
 
 /-- **RQ bin end-points, as executed**: left knot ↦ `yk`, right knot ↦ `yk + h`. -/
 theorem rq_executed_endpoints {xk w yk h d0 d1 : ℝ} (hw : 0 < w) (hh : 0 < h) :
     evalR (Bridge.rqEnv xk xk w yk h d0 d1) rqFwdE = yk ∧
-    evalR (Bridge.rqEnv (xk + w) xk w yk h d0 d1) rqFwdE = yk + h := by
-  constructor
-  · rw [Bridge.rqFwdE_eq]; simp [RQ.g_zero]
-  · rw [Bridge.rqFwdE_eq]
-    have : (xk + w - xk) / w = 1 := by rw [add_sub_cancel_left]; exact div_self hw.ne'
-    rw [this, RQ.g_one (div_pos hh hw)]
+    evalR (Bridge.rqEnv (xk + w) xk w yk h d0 d1) rqFwdE = yk + h :=
+  RQBin.rq_executed_endpoints hw hh
 
 /-- **Cubic bin**: with knot derivatives in the Fritsch–Carlson region the Hermite derivative is positive
     on the whole bin, and the code's interior knot derivatives lie in that region. -/
@@ -145,6 +133,36 @@ theorem spline_mapsTo_box {K : ℕ} (P : SplineAssembly.Pieces K) (eps : ℝ) (h
   have h0 : P.xs 0 ∈ Set.Icc (P.xs 0) (P.xs K) := ⟨le_rfl, le_trans hx.1 hx.2⟩
   have hKm : P.xs K ∈ Set.Icc (P.xs 0) (P.xs K) := ⟨le_trans hx.1 hx.2, le_rfl⟩
   exact ⟨hl ▸ hm h0 hx hx.1, hr ▸ hm hx hKm hx.2⟩
+
+/-! ## the executed rational-quadratic program as a whole (list program `rqSpline` instantiated at ℝ) -/
+
+/-- **End to end, RQ forward**: for every accepted configuration (`RQWhole.RQValid`: `K ≥ 1`, parameter vectors of the
+    right lengths, `0 ≤ min_bin_* `, `min_bin_* · K ≤ 1`, `left < right`, `bottom < top`, `eps > 0`, `0 ≤ min_derivative`,
+    `β > 0`) and EVERY unnormalised parameter vectors, the value the executed program `rqSpline … false` returns is
+    strictly increasing on the whole of `[left, right]` — across all bins, including the knots where the searched bin
+    changes. -/
+theorem rq_program_strictMonoOn (e : Float → ℝ) (c : RQCfg) (uw uh ud : List ℝ) (hv : RQWhole.RQValid e c uw uh ud) :
+    StrictMonoOn (RQWhole.val e c uw uh ud) (Set.Icc (e c.box.left) (e c.box.right)) :=
+  RQWhole.val_strictMonoOn hv
+
+/-- … it sends the corners of the box to each other … -/
+theorem rq_program_endpoints (e : Float → ℝ) (c : RQCfg) (uw uh ud : List ℝ) (hv : RQWhole.RQValid e c uw uh ud) :
+    RQWhole.val e c uw uh ud (e c.box.left) = e c.box.bottom ∧ RQWhole.val e c uw uh ud (e c.box.right) = e c.box.top :=
+  RQWhole.val_endpoints hv
+
+/-- … and maps `[left, right]` into `[bottom, top]`. -/
+theorem rq_program_mapsTo (e : Float → ℝ) (c : RQCfg) (uw uh ud : List ℝ) (hv : RQWhole.RQValid e c uw uh ud) :
+    Set.MapsTo (RQWhole.val e c uw uh ud) (Set.Icc (e c.box.left) (e c.box.right)) (Set.Icc (e c.box.bottom) (e c.box.top)) :=
+  RQWhole.val_mapsTo hv
+
+/-- non-vacuity: the hypotheses of the three theorems above are met by a concrete configuration -/
+example : RQWhole.RQValid RQWhole.eNV RQWhole.cNV [0] [0] [0, 0] := RQWhole.valid_example
+
+/-- `RQWhole.val` IS the program's first output wherever the program succeeds (it is not a re-statement of the spline) -/
+theorem rq_program_val_is_output (e : Float → ℝ) (c : RQCfg) (uw uh ud : List ℝ) (x : ℝ) (r : ℝ × ℝ)
+    (h : rqSpline (NF.realX e) c uw uh ud false x = .ok r) :
+    RQWhole.val e c uw uh ud x = r.1 ∧ RQWhole.ld e c uw uh ud x = r.2 := by
+  simp [RQWhole.val, RQWhole.ld, h]
 
 /-- **Tails (executable model, any scalar semantics)**: outside `[-B, B]` the unconstrained wrappers return the
     input and a zero log-abs-det, whatever the inner spline is. -/
